@@ -631,9 +631,14 @@ class Engine:
         return bool(cond)
 
     # ---- exploration
-    def explore(self, fn, max_paths=None, deadline=None, stop_on_failure=False, on_path=None):
+    def explore(self, fn, max_paths=None, deadline=None, stop_on_failure=False, on_path=None,
+                start_prefix=None):
+        """DFS over decision prefixes.  Returns (failures, exhausted).  When the budget (max_paths /
+        deadline) ends the search early, `self.remaining` holds the decision prefixes of the
+        unexplored subtrees (each can be passed back as start_prefix, e.g. to another process)."""
         failures = []
-        self.prefix = []
+        self.prefix = [[v, False, a] for v, _, a in (start_prefix or [])]
+        self.remaining = []
         exhausted = False
         while True:
             self.trace = []
@@ -673,9 +678,15 @@ class Engine:
                 break
             last = tr.pop()
             self.prefix = [list(t) for t in tr] + [[not last[0], False, last[2]]]
-            if max_paths is not None and self.paths >= max_paths:
-                break
-            if deadline is not None and time.time() > deadline:
+            if (max_paths is not None and self.paths >= max_paths) or \
+                    (deadline is not None and time.time() > deadline):
+                # hand the open subtrees back: the next prefix itself, and the untaken side of every
+                # earlier decision that still has an alternative
+                nxt = self.prefix
+                self.remaining.append([[v, False, a] for v, _, a in nxt])
+                for i, (v, alt, a) in enumerate(nxt[:-1]):
+                    if alt:
+                        self.remaining.append([[x, False, y] for x, _, y in nxt[:i]] + [[not v, False, a]])
                 break
         return failures, exhausted
 
